@@ -1,6 +1,7 @@
 package main
 
 import (
+	"strconv"
 	"bufio"
 	"fmt"
 	"io"
@@ -105,6 +106,11 @@ const c13ServeMagic = -7713
 func c13IsRange(fn int64) bool {
 	return fn == 29 || fn == 30 || fn == 34 || fn == 35 || (fn >= 42 && fn <= 45) || fn == 65 || fn == 66
 }
+
+// c13Level: an int8 with a String method, as enum-like types have
+type c13Level int8
+
+func (l c13Level) String() string { return "level " + strconv.Itoa(int(l)) + "!" }
 
 type c13Child struct {
 	cmd   *exec.Cmd
@@ -382,12 +388,14 @@ func execC13Direct(in []int64) (out []int64) {
 				res = w.Out()
 			}
 		case 42, 43:
+			// the int8 instance is a NAMED int8 with a String method (an enum-like type): the helpers
+			// must work on the number, not on what it prints as
 			args := r.Ints()
-			a8 := make([]int8, len(args))
+			a8 := make([]c13Level, len(args))
 			for i, v := range args {
-				a8[i] = int8(v)
+				a8[i] = c13Level(int8(v))
 			}
-			var l []int8
+			var l []c13Level
 			var err error
 			if fn == 42 {
 				l, err = gogu.Range(a8...)
